@@ -82,10 +82,21 @@ def main():
     except Infra as e:
         print('INFRA: %s' % e)
         sys.exit(2)
-    except Exception:
-        traceback.print_exc()
-        print('INFRA: harness crashed')
-        sys.exit(2)
+    except Exception as e:
+        # an exception raised INSIDE the code under test (innermost elfi frame below the harness frames) on a generated case is a
+        # failing input, not an infrastructure problem: the property says the operation yields a result
+        tb = traceback.extract_tb(e.__traceback__)
+        repo = os.path.realpath(os.environ.get('VERIF_REPO', '/repo'))
+        in_repo = [f for f in tb if os.path.realpath(f.filename).startswith(repo + os.sep)]
+        if in_repo and getattr(ctx, 'last_case', None) is not None and not isinstance(e, (MemoryError, KeyboardInterrupt)):
+            f = in_repo[-1]
+            traceback.print_exc()
+            ctx.fail_input(ctx.last_case, 'the code under test raised %s: %s at %s:%d (%s) on this generated case (or the one generated right after it)'
+                           % (type(e).__name__, str(e)[:120], os.path.relpath(f.filename, repo), f.lineno, f.name))
+        else:
+            traceback.print_exc()
+            print('INFRA: harness crashed')
+            sys.exit(2)
 
     # ---- 3. broken proof / correspondence without a failing input: search harder ----
     if (ctx.proof_problems or ctx.corr_breaks) and not ctx.failing and hasattr(mod, 'search'):
